@@ -33,8 +33,8 @@ ASSUMPTIONS = [
     "linear time: a violation needs growth exponent > 1.6 (overall and between the two largest sizes) AND > 2 s absolute; otherwise inconclusive",
 ]
 TIERS = {
-    "quick": {"examples": 24000, "budget_s": 110, "time_families": 3},
-    "thorough": {"examples": 500000, "budget_s": 2400, "time_families": 9, "atheris_runs": 200000},
+    "quick": {"examples": 24000, "budget_s": 110, "time_families": 12, "quick_time_subset": ["layer_blocks", "keyword_run", "unclosed_blocks", "unclosed_blocks_with_body"]},
+    "thorough": {"examples": 500000, "budget_s": 2400, "time_families": 12, "atheris_runs": 200000},
 }
 PARTS = ["search", "fixed_part", "pairs_part"]
 
@@ -359,14 +359,23 @@ def time_families():
         ("long_string", lambda n: "MAP NAME '" + "x" * n + "' END"),
         ("c_comments", lambda n: "MAP\n" + "/* c */ " * (n // 8) + "END\n"),
         ("many_roots", lambda n: "CLASS NAME 'x' END\n" * (n // 19)),
+        # rejected inputs whose parser stack keeps growing (never closed): still linear work
+        ("unclosed_blocks", lambda n: "LAYER\n" * (n // 6)),
+        ("unclosed_blocks_with_body", lambda n: "LAYER NAME 'x'\n" * (n // 15)),
+        ("open_braces", lambda n: "CLASS EXPRESSION " + "{" * n),
     ]
 
 
 def measure(parser_loads, text, reps=3):
     best = None
+    import lark
+
     for _ in range(reps):
         t0 = time.process_time()
-        parser_loads(text)
+        try:
+            parser_loads(text)
+        except lark.exceptions.LarkError:
+            pass  # rejected inputs are timed as well
         dt = time.process_time() - t0
         best = dt if best is None else min(best, dt)
     return best
@@ -393,6 +402,9 @@ def fixed_part(acc: Acc, tier, shard, nshards):
 def timing(acc, tier):
     W = env.Workers.get()
     fams = time_families()[: TIERS[tier]["time_families"]]
+    subset = TIERS[tier].get("quick_time_subset")
+    if subset:
+        fams = [f for f in fams if f[0] in subset]
     for comments in ((False,) if tier == "quick" else (False, True)):
         def loads(text):
             return W.loads(text, comments=comments)
